@@ -59,6 +59,12 @@ class CoreSummaries:
             I.st.obligations[-1].replay = {'kind': 'metadata_shape', 'when': 'any'}
             mdt = z3.Const(sym.fresh_name('md_any'), sym.SeqMdS)
         g = I.st.ghost
+        if any(t.eq(mdt) for t in g.get('_released_terms', [])) and not z3.is_app_of(z3.simplify(mdt), z3.Z3_OP_SEQ_EMPTY):
+            # the very metadata list that is handed downstream was already released by this node in this step: the count can reach
+            # zero (and the completion callback be scheduled) while the element is still on its way
+            I.oblige('emit.metadata_is_released_only_after_it_has_been_handed_downstream', False, kind='callsite',
+                     note='_release_refs(md) precedes _emit(.., md) in the same step')
+            I.st.obligations[-1].props = ['C04', 'C05', 'C09']
         if isinstance(x, VList) and isinstance(recv, VObj):
             # aliasing: the object handed downstream must not be one of the node's own live containers, otherwise elements
             # the node appends later show up inside a batch that has already been delivered (and are delivered again)
@@ -104,6 +110,8 @@ class CoreSummaries:
             raise Unsupported('_retain/_release_refs over %s' % k)
         g = I.st.ghost
         g['delta'] = VInt(g['delta'].t + sign * eff)
+        if sign < 0 and k is K_MDE:
+            g['_released_terms'] = g.get('_released_terms', []) + [t]
         if sign < 0:
             # B2: a node releases only what it holds
             held0 = self.own_pre(I)
@@ -128,6 +136,32 @@ class CoreSummaries:
             for f in (fields if fields is not None else self.data_fields):
                 fs.append(values_equal_across(I, self.pre_state, pre.fields[f], o.state, post.fields[f]))
             return z3.And(fs) if fs else z3.BoolVal(True)
+        return fn
+
+    def held_during_emit_clause(self):
+        """H1 at the moment of each emission: the references handed downstream are still held -- by this node (what it held at
+        entry plus its own retains minus its own releases so far) or by its caller, which holds the metadata of the current
+        call until update() returns.  A node that releases first and emits afterwards lets the count touch zero while the
+        element is on its way."""
+        def fn(self_, I, o, fr):
+            snaps = o.state.ghost['_snaps']
+            if not snaps:
+                return None
+            held_pre = self.held(I, self.pre_state)
+            md = self.pre_args.get('metadata')
+            arg = z3.IntVal(0)
+            if md is not None and not isinstance(md, VNone):
+                t, k = I.seq_term(md)
+                if t is not None:
+                    arg = sym.occ(R, t)
+            fs = []
+            for s in snaps:
+                g = s.ghost
+                emd = g['emitted_md'].t
+                n = z3.Length(emd)
+                last = emd[n - 1]
+                fs.append(held_pre + g['delta'].t + arg >= sym.occ(R, last))
+            return z3.And(fs)
         return fn
 
     def same_exception_clause(self, cls):
@@ -360,6 +394,8 @@ class NodeUpdate(CoreSummaries, Contract):
                    note='own ref-count effect == held(post) - held(pre)'),
             Clause('C16.no_over_release_on_downstream_failure', ['C05', 'C16'], fn=self.no_over_release_clause(),
                    when='raise:DownstreamError', kind='no_over_release', replay=rp),
+            Clause('C04.handed_over_references_are_held_during_the_downstream_call', ['C04', 'C05'], fn=self.held_during_emit_clause(),
+                   when='normal', note='H1 at every emission: release only after the downstream call has returned'),
             Clause('C01.reentrancy', ['C01', 'C05'], fn=self.reentrancy_clause(), when='return', kind='reentrancy', replay=rp,
                    note='state is final before every emission'),
         ]
